@@ -407,6 +407,8 @@ namespace hv
         int solo = 1;
         bool use_tape = false, emit_tape = false;
         int instr = 0, instr_target = 0;
+        bool instr_profile = false;
+        unsigned long long instr_site = 0;
         std::vector<long long> tape;
         {
             std::istringstream in(all.text);
@@ -429,6 +431,12 @@ namespace hv
                     std::istringstream is(line.substr(6));
                     is >> instr;
                     is >> instr_target;
+                    std::string opt;          // site sweep: "profile" | "site=<hex>"
+                    while (is >> opt)
+                    {
+                        if (opt == "profile") instr_profile = true;
+                        else if (opt.rfind("site=", 0) == 0) instr_site = std::stoull(opt.substr(5), nullptr, 16);
+                    }
                     continue;
                 }
                 if (line.rfind("solo ", 0) == 0) { solo = std::stoi(line.substr(5)); continue; }
@@ -462,6 +470,8 @@ namespace hv
         cfg.instr_interval = instr;
         if (instr > 0) cfg.max_steps = 20'000'000;     // every extra pre-emption point is a scheduler step
         cfg.instr_target_mod = instr_target;
+        cfg.instr_profile    = instr_profile;
+        cfg.instr_site       = instr_site;
         sim::configure(cfg);
         sim::set_log(false);
         for (auto &j : jobs)
@@ -478,6 +488,7 @@ namespace hv
             for (long long x : sim::tape_record()) { if (!tp.empty()) tp += ","; tp += std::to_string(x); }
             Line("tape").i("n", static_cast<long long>(sim::tape_record().size())).str("v", tp).emit();
         }
+        if (instr_profile) Line("sites").raw("v", profiled_sites_json()).emit();
         Line("end").str("run", "done").i("steps", sim::stats().steps).i("preemptions", sim::stats().preemptions).i("mutex_blocks", sim::stats().mutex_blocks)
             .i("instr_points", sim::stats().instr_points).str("trace_hash", std::to_string(sim::trace_hash())).emit();
         return 0;
